@@ -165,16 +165,13 @@ def make_graph(spec):
                 except Fail:
                     ref = ('fail',)
                 if real != ref:
-                    if f2_shape(adj, n) and 'F2' in known:
-                        return True, 'known:F2', [text, NAMES[start], t, repr(real)[:60], repr(ref)[:60]]
-                    if 'F15' in known and real == static(t, NAMES[start]):
+                    # a terminating but shorter parse than seed growing at the entered rule: known finding F15
+                    if 'F15' in known and (real == static(t, NAMES[start]) or f2_shape(adj, n)):
                         return True, 'known:F15', [text, NAMES[start], t, repr(real)[:60], repr(ref)[:60]]
                     return False, 'seed-growing-result', [NAMES[start], t, repr(real)[:80], repr(ref)[:80]]
             if bad_recursion:
                 break
         if bad_recursion:
-            if f2_shape(adj, n) and 'F2' in known:
-                return True, 'known:F2', [text] + bad_recursion
             return False, 'unbounded-recursion', bad_recursion
         return True, ('cyclic' if anycycle else 'triv:acyclic'), [sum(cyc)]
 
@@ -236,8 +233,6 @@ def make_marking(spec):
         # every cycle needs a rule that carries the runtime guard: the graph restricted to unguarded rules is acyclic
         rest = [[adj[i][j] and not lrec[i] and not lrec[j] for j in range(n)] for i in range(n)]
         if any(on_cycle(rest, n, i) for i in range(n)):
-            if f2_shape(adj, n) and 'F2' in known:
-                return True, 'known:F2', [[int(x) for r in adj for x in r]]
             return False, 'cycle-without-guard', [[int(x) for r in adj for x in r]]
         return True, ('cyclic' if any(cyc) else 'triv:acyclic'), [sum(lrec)]
 
